@@ -73,6 +73,15 @@ claim('C02', 'proof',
  "partial: the per-gate noise clauses (stdev <= 0.0037/0.0047, x1.35 MUX; |mean| <= bound/4; |error| < 3/64; same distribution for every input history) are measured on >= 3000 outputs per parameter set (quick) and never proved; a statistic above its bound by less than 8 estimator standard deviations after the whole sample budget is reported in the evidence notes, not alarmed on",
  "DESIGN.md section 4, C02", "machine-checked proof in Coq (induction over netlists) + model/implementation correspondence; noise statistics measured")
 
+claim('C03', 'proof',
+ "Coq theorems for every key, dimension, every M of C13's domain (any integer in [2,2^15], powers of two up to 2^30) and every message mu in [0,M): the 64-bit encoding of mu is within M units of mu*2^32/M; a phase within 2^31/M - 2 units of that encoding rounds back to it (both signs, wrap-around at mu = 0 included); lweSymEncrypt given its draws has phase = message + converted Gaussian draw and mask = the next n words, so decrypt(encrypt) = message whenever the draw is below the threshold; noiseless trivial samples decrypt under every key; bootsSymDecrypt(bootsSymEncrypt(b)) = b for |e| < 1/8; the phase of a fresh TLWE encryption of zero is the vector of its converted draws (ring phase, every N, k); tied to the code by library encryptions (draws replayed) and harness-built ciphertexts with the error exactly on, one unit inside and one unit outside the threshold of either sign, for n in {1..9,500,630,1024} and Msize in {2..64,100,1000,2^k,random}, TLWE (polynomial and constant messages) and TGSW (Msize a power of two <= Bg) at N=1024, k in {1,2}, and the gate API; every decryption compared with the message, the extracted model and an independent nearest-multiple formula",
+ "trusted: Coq kernel, extraction, harness; 'every noise level with Msize*alpha <= 1/20' is a 10-sigma Gaussian tail statement: the theorems are deterministic in the error and the run reports the largest |error|/threshold seen; TGSW decryption is modelled and compared, its correctness theorem is not proved (tgsw_decrypt_correct of DESIGN.md not done)",
+ "DESIGN.md section 4, C03")
+claim('C07', 'proof',
+ "PARTIAL (exact draw-to-ciphertext identities proved, the sampler's distribution measured). Coq theorems on a model in which randomness is an explicit stream of draws (uniform word / key bit / Gaussian binary64), for every dimension: lweSymEncrypt's mask is exactly the n draws after its Gaussian draw and its phase error is exactly the converted draw (neither larger, smaller nor zeroed); two successive encryptions read disjoint adjacent stream segments; the gate-API and external-noise encryptions likewise; for the key-switching key, in row order, row (i,j,h>=1) has phase message + converted recentred noise and every h = 0 row is the trivial zero sample; a TLWE row's masks are the drawn words and its ring phase is one draw per coefficient; tied to the code by seeding the library generator, cloning it, calling the library, driving the clone through the draw sequence the model predicts and requiring equal generator states (operator==), then requiring the model on those draws to reproduce the library output bit for bit (LWE keys/samples, every key-switching row incl. the binary64 recentring, masks) or within 2 units (b polynomials through the FFT) up to whole secret key sets; statistics (mean, variance, kurtosis per noise level 2^-30..2^-5 and the defaults; mask byte histogram and lag correlation; key bit frequency; key-switching row errors sum to zero) with 8-sigma acceptance regions; seeding determinism",
+ "partial: std::default_random_engine, normal_distribution, uniform_int_distribution and seed_seq are trusted, not modelled (replayed through the same libstdc++ headers); that keys are binary and the sampler has the requested stdev is measured on the draws the ciphertexts are proved and checked to embed",
+ "DESIGN.md section 4, C07", "machine-checked proof in Coq (draw-stream model) + bit-exact replay correspondence; sampler statistics measured")
+
 NA_REASON = "check not built yet in this revision (work in progress; DESIGN.md section 8 gives the order)"
 checks = []
 for p in props:
